@@ -284,7 +284,14 @@ int main(int argc, char** argv) {
 #ifdef VF_FREERUN
     // ---- free-running pass under ThreadSanitizer: the detector for unsynchronised sharing -------------------
     size_t runs = 0; double t0 = nowS();
-    for (auto& g : groups) for (int r = 0; r < reps; ++r) { execute(defs, g, scratch, {}, 0); runs++; }
+    // every other repetition runs in a process of its own that has never executed library code: races on lazily initialised process-wide state
+    // (the FIRST insertion into a function-local table, the first use of a cache) only exist there; the remaining repetitions run warm, in this process
+    // (all the cold runs come FIRST: a child forked after this process has run library code would inherit its warm state)
+    for (int pass = 0; pass < 2; ++pass) for (auto& g : groups) for (int r = pass; r < reps; r += 2) {
+        if (getenv("VF_ONLY_GROUP") && groupName(g) != getenv("VF_ONLY_GROUP")) continue;
+        if (pass == 0) { fflush(stdout); fflush(stderr); pid_t c = fork(); if (c == 0) { alarm(60); execute(defs, g, scratch, {}, 0); _exit(0); } int st = 0; waitpid(c, &st, 0); }
+        else execute(defs, g, scratch, {}, 0);
+        runs++; }
     FILE* f = out.empty() ? stdout : fopen(out.c_str(), "w");
     fprintf(f, "{\"mode\": \"freerun\", \"groups\": %zu, \"repetitions\": %d, \"runs\": %zu, \"wall_s\": %.1f}\n", groups.size(), reps, runs, nowS() - t0); if (f != stdout) fclose(f);
     return 0;
